@@ -48,7 +48,7 @@ func (e *Engine) globalInitInt(pkgSuffix, name string) (int64, bool) {
 }
 
 func runC02(e *Engine, r *Report, tier string) {
-	r.Explanation = "C02, structural clauses. Decided: R1 in the tally the event is applied only on the branch `not (sum < required)`, `required` = <threshold constant> * get(0x39) / 100 with the constant's value 66, `sum` starts at 0 and only ever adds GetPower() of oracle records that were found for an address in the attestation's vote list (the not-found branch adds nothing), and GetPower is stake / power reduction; R2 a vote is recorded only for the oracle found through the bridger index (0x14) whose record (0x12) exists and is Online, the bridger being the claim's own; R3 signer identity — for the wrapper messages whose payload names its own bridger (MsgClaim, MsgConfirm) equality between the wrapper's signer field and the payload's bridger (mismatch -> error) dominates every success return of ValidateBasic (or the handler body), and every routed fx-core message declares a signer field that exists in its Go type; R4 every transaction-reachable function that stores an oracle record after setting Online=true, assigning DelegateAmount or creating the record refreshes the total power (0x39) on every success path afterwards, and the refresh sums GetPower over online oracles; R5 distinct voters — the vote append is guarded by a membership test of the appended oracle itself in the vote list whenever the per-oracle nonce can be deleted (decided as C01.R4); R6 the summed votes are votes for the very same event — every field of a claim that is executed is part of its hash through a value-preserving rendering, and vote, store and tally use one (nonce, hash) (decided as C03.R1/R3; the three hash-coverage findings recorded for C03 are known findings here as well). R7 the bridger index through which a voter is resolved agrees with the oracle records (the 0x14 obligations of C13.R1: co-written, re-keyed on edit, deleted under the record's own bridger on unbond). Not decided: `at least 66%` under integer truncation, stake distributions."
+	r.Explanation = "C02, structural clauses. Decided: R1 in the tally the event is applied only on the branch `not (sum < required)`, `required` = <threshold constant> * get(0x39) / 100 with the constant's value 66, `sum` starts at 0 and only ever adds GetPower() of oracle records that were found for an address in the attestation's vote list (the not-found branch adds nothing), and GetPower is stake / power reduction; R2 a vote is recorded only for the oracle found through the bridger index (0x14) whose record (0x12) exists and is Online, the bridger being the claim's own; R3 signer identity — for the wrapper messages whose payload names its own bridger (MsgClaim, MsgConfirm) equality between the wrapper's signer field and the payload's bridger (mismatch -> error) dominates every success return of ValidateBasic (or the handler body), and every routed fx-core message declares a signer field that exists in its Go type; R4 every transaction-reachable function that stores an oracle record after setting Online=true, assigning DelegateAmount or creating the record refreshes the total power (0x39) on every success path afterwards, and the refresh sums GetPower over online oracles; genesis import computes the total after the last oracle record is stored; R5 distinct voters — the vote append is guarded by a membership test of the appended oracle itself in the vote list whenever the per-oracle nonce can be deleted (decided as C01.R4); R6 the summed votes are votes for the very same event — every field of a claim that is executed is part of its hash through a value-preserving rendering, and vote, store and tally use one (nonce, hash) (decided as C03.R1/R3; the three hash-coverage findings recorded for C03 are known findings here as well). R7 the bridger index through which a voter is resolved agrees with the oracle records (the 0x14 obligations of C13.R1: co-written, re-keyed on edit, deleted under the record's own bridger on unbond). Not decided: `at least 66%` under integer truncation, stake distributions."
 	r.Rule("R1", "quorum: apply iff sum(power of found voters) >= 66 * total(0x39) / 100", 5, "")
 	r.Rule("R2", "vote admission: bridger -> oracle (0x14, 0x12) found and Online; vote recorded for that oracle", 4, "")
 	r.Rule("R3", "signer identity: wrapper signer == payload bridger; signer fields exist", 3, "proto messages with cosmos.msg.v1.signer")
@@ -518,6 +518,44 @@ func runC02(e *Engine, r *Report, tier string) {
 	}
 	if n4 < 2 {
 		r.Fail("R4", "power-raising writers", "", fmt.Sprintf("UNRESOLVED-ANCHOR: %d found", n4))
+	}
+	// genesis import stores oracle records wholesale: the recorded total must be computed after the last of them (the refresh
+	// takes no argument, it sums what is in the store at that moment)
+	for _, fn := range e.Funcs {
+		if isAuxPkg(fnPkgPath(fn)) || !isGenesisOrUpgrade(fn) || fn.Parent() != nil || !strings.Contains(fnPkgPath(fn), "x/crosschain/keeper") {
+			continue
+		}
+		var sets []ssa.CallInstruction
+		hasRefresh := false
+		allCalls(fn, func(c ssa.CallInstruction) {
+			if e.callDirectOp(c, cc, "12", "set") {
+				sets = append(sets, c)
+			}
+			if e.callDirectOp(c, cc, "39", "set") {
+				hasRefresh = true
+			}
+		})
+		if len(sets) == 0 {
+			continue
+		}
+		ck := e.CanonFnKey(fn) + " import"
+		bad := ssa.Instruction(nil)
+		for _, sc := range sets {
+			if off := MustPassThrough(fn, sc, func(i ssa.Instruction) bool {
+				c, ok := i.(ssa.CallInstruction)
+				return ok && e.callDirectOp(c, cc, "39", "set")
+			}); off != nil {
+				bad = sc
+			}
+		}
+		switch {
+		case !hasRefresh:
+			r.Fail("R4", ck, e.Pos(fn.Pos()), "oracle records are imported without computing the recorded total power (0x39): the 66% bar is taken against 0")
+		case bad != nil:
+			r.Fail("R4", ck, e.InstrPos(bad), "oracle records are stored after the recorded total power (0x39) was computed: the total sums the oracles in the store at that moment, so the imported chain starts with a total of 0 (or of part of the oracles) and a single vote reaches the bar")
+		default:
+			r.Ok("R4", ck, e.Pos(fn.Pos()), "the recorded total is computed after every imported oracle record is stored")
+		}
 	}
 }
 
